@@ -521,8 +521,16 @@ func c18Hist(h []int, ops []string) string {
 	return strings.Join(p, "; ")
 }
 
+// name triples for the collection histories: (a, A, b) stands for two spellings of one name and another
+// name; the second triple is a case pair whose two letters have different UTF-8 widths (U+2C65 / U+023A),
+// the third an accented letter, its capital and the unaccented letter (which is another name)
+var c18NameSets = [][]string{{"a", "A", "b"}, {"x\u2c65", "x\u023a", "x\u2c66"}, {"\u00e9", "\u00c9", "e"}}
+
 func c18Collections(c *fw.Ctx, h []int, isFunc bool) {
-	names := []string{"a", "A", "b"}
+	c18CollectionsNamed(c, h, isFunc, c18NameSets[0])
+}
+
+func c18CollectionsNamed(c *fw.Ctx, h []int, isFunc bool, names []string) {
 	model := []c18Ent{}
 	next := 0
 	vc := variables.NewVariableCollection()
@@ -708,7 +716,7 @@ func init() {
 		ID:    "C18",
 		Level: "model_checking",
 		Rule: "(a) expression trees with identifiers from {a, A, b, \"a b\", Max, \"Max\", if} in every syntactic position (operand, call argument, call name, index, next to equal string constants), 4 printing styles, plus sums of k distinct identifiers and identifiers of k characters for k up to 129: VariableNames() vs the variable leaves in order of first occurrence; automatic variables with three pre-populations of the default collection, and the same through the CreateVariables entry point on a caller's collection with automatic variables off; automatic variables off => VAR_NOT_FOUND/FUNC_NOT_FOUND naming the identifier; every call expression with an explicit empty function collection => FUNC_NOT_FOUND; a variable removed by a function of the expression between two reads of its name is missing (or resolves to the other letter-case entry) at the later read; " +
-			"(b) every sequence of <=3 (thorough 4) template pieces (all section spellings, text containing the words if/unless): MustacheParser.VariableNames(), default-variable creation and CreateVariables on a caller's map; (c) every history up to the depth bound over 15 operations (incl. a caller writing in place into the value object of the first / last entry) on VariableCollection and FunctionCollection against an ordered-list model (first match wins, case-insensitive); non-trivial = >=2 variables / histories of >=2 steps",
+			"(b) every sequence of <=3 (thorough 4) template pieces (all section spellings, text containing the words if/unless): MustacheParser.VariableNames(), default-variable creation and CreateVariables on a caller's map; (c) every history up to the depth bound over 15 operations (incl. a caller writing in place into the value object of the first / last entry) on VariableCollection and FunctionCollection against an ordered-list model (first match wins, case-insensitive), and the histories one step shorter with the names replaced by a case pair of different UTF-8 widths and by an accented letter, its capital and the bare letter; non-trivial = >=2 variables / histories of >=2 steps",
 		Assume: []string{"names differing only in letter case may be merged or reported separately", "Remove(i) with i out of range is not exercised"},
 		Spaces: func(tier string) []fw.Space {
 			trees := c18Trees()
@@ -840,6 +848,11 @@ func init() {
 					c18Collections(c, h, i%2 == 1)
 				}, Repr: func(i int64) string {
 					return fmt.Sprintf("[%s] repeated %d times (function collection: %v)", c18Hist(seqByIndex(k, 1+i/10), c18Ops), []int{3, 9, 17, 65, 257}[i/2%5], i%2 == 1)
+				}},
+				{Name: "collections-other-names", N: countStrings(k, depth-1) * 4, Run: func(c *fw.Ctx, i int64) {
+					c18CollectionsNamed(c, seqByIndex(k, i/4), i%2 == 1, c18NameSets[1+i/2%2])
+				}, Repr: func(i int64) string {
+					return fmt.Sprintf("[%s] with (a, A, b) standing for %q (function collection: %v)", c18Hist(seqByIndex(k, i/4), c18Ops), c18NameSets[1+i/2%2], i%2 == 1)
 				}},
 				{Name: "function-collection", N: countStrings(k, depth), Run: func(c *fw.Ctx, i int64) { c18Collections(c, seqByIndex(k, i), true) },
 					Repr: func(i int64) string { return "FunctionCollection [" + c18Hist(seqByIndex(k, i), c18Ops) + "]" }},
